@@ -9,17 +9,19 @@ N="${2:-9}"
 shift; shift
 SC=/tmp/sc_T13_$N
 OUT=/tmp/sc_T13_out_$N
-RAW="$HERE/RESULTS_raw.txt"
+# DIFFS / RAW: another directory of diffs (e.g. ../T4) and where to append its results
+DIFFS="${DIFFS:-$HERE}"
+RAW="${RAW:-$HERE/RESULTS_raw.txt}"
 git -C /repo worktree add --detach "$SC" HEAD >/dev/null 2>&1
 NAMES="$*"
-[ -z "$NAMES" ] && NAMES="$(cd "$HERE" && ls *.diff | sed 's/\.diff$//')"
+[ -z "$NAMES" ] && NAMES="$(cd "$DIFFS" && ls *.diff | sed 's/\.diff$//')"
 for name in $NAMES; do
     git -C "$SC" checkout -q . && git -C "$SC" clean -fdq
-    grep -v '^# ' "$HERE/$name.diff" | git -C "$SC" apply --whitespace=nowarn - || { echo "$name: the diff does not apply" >> "$RAW"; continue; }
+    grep -v '^# ' "$DIFFS/$name.diff" | git -C "$SC" apply --whitespace=nowarn - || { echo "$name: the diff does not apply" >> "$RAW"; continue; }
     rm -rf "$OUT"
     ( cd "$VERIF" && PCFG_REPO="$SC" PCFG_OUT="$OUT" timeout 1500 ./check C05 --tier quick ) > "$OUT.log" 2>&1
     {
-        echo "== $name: $(head -1 "$HERE/$name.diff" | sed 's/^# //')"
+        echo "== $name: $(head -1 "$DIFFS/$name.diff" | sed 's/^# //' | cut -c1-300)"
         grep -v "WARNING conda" "$OUT.log" | grep "^VIOLATION\|no longer checks\|-> OK\|-> VIOLATION\|KNOWN" | cut -c1-700
     } >> "$RAW"
 done
